@@ -66,6 +66,8 @@ def _copy_val(v, memo):
         return tuple(_copy_val(x, memo) for x in v)
     if isinstance(v, set):
         return set(v)
+    if isinstance(v, dict):
+        return dict(v)
     return v
 
 
